@@ -64,33 +64,52 @@ class C11Commands(Oracle):
             if d["fin"] > 0:
                 self.v("C11", "C11.exec_after_finalize", name, f"instance {inst} of {name} executed after finalize")
             d["exec"] += 1
-            self.exec_this_tick.setdefault(name, set()).add(inst)
-            if len(self.exec_this_tick[name]) > 1:
-                self.v("C11", "C11.two_instances_same_command_in_tick", name,
-                       f"instances {sorted(self.exec_this_tick[name])} of {name} executed in tick {tick}")
-            for grp in self.OVERLAP:
-                if name in grp:
-                    others = [n for n in grp if n != name and self.exec_this_tick.get(n)]
-                    if others:
-                        self.v("C11", "C11.overlapping_commands_in_tick", "+".join(sorted(grp)),
-                               f"{name} and {others} executed in tick {tick}")
+            # exclusivity: while this instance executes no other instance of the same command (or of a command
+            # declared as overlapping) is alive, i.e. initialized and not yet finalized
+            for other, od in self.inst.items():
+                if other == inst or od["init"] == 0 or od["fin"] > 0:
+                    continue
+                if od.get("edited_while_alive"):
+                    continue      # reported once as C11.command_orphaned_by_live_edit
+                if od["name"] == name:
+                    self.v("C11", "C11.two_live_instances_same_command" + self.w.ctx(), name,
+                           f"instance {inst} of {name} executed in tick {tick} while instance {other} "
+                           f"(initialized in tick {od['init_tick']}) was not finalized")
+                elif any(name in g and od["name"] in g for g in self.OVERLAP):
+                    self.v("C11", "C11.overlapping_commands_alive" + self.w.ctx(), "+".join(sorted((name, od["name"]))),
+                           f"{name} executed in tick {tick} while overlapping {od['name']} (instance {other}) was not finalized")
         elif phase == "finalize":
             d["fin"] += 1
             d["fin_tick"] = tick
             if d["fin"] > 1:
                 self.v("C11", "C11.finalized_twice", name, f"instance {inst} of {name} finalized {d['fin']} times")
 
+    def after_edit(self, kind, expect, accepted, old, new):
+        # a live edit replaces the engine's command manager; instances alive at that moment are "orphan candidates"
+        if accepted and self.w.state not in ("Stopped", "Restarting"):
+            for inst, d in self.inst.items():
+                if d["init"] and d["fin"] == 0:
+                    d["edited_while_alive"] = True
+
     def at_end(self, w):
         # the harness always ends a run with Stop + settle ticks: every initialized instance is finalized
         if not getattr(w, "ended_with_stop", False):
             return
+        orphan_names = set()
         for inst, d in self.inst.items():
             if d["init"] and d["fin"] == 0:
-                self.v("C11", "C11.never_finalized", d["name"],
-                       f"instance {inst} of {d['name']} initialized in tick {d['init_tick']} was never finalized")
-        if w.uod.command_instances:
-            self.v("C11", "C11.instance_left_after_stop", sorted(w.uod.command_instances)[0],
-                   f"after the final Stop uod still holds instances {sorted(w.uod.command_instances)}")
+                if d.get("edited_while_alive"):
+                    orphan_names.add(d["name"])
+                    self.v("C11", "C11.command_orphaned_by_live_edit", d["name"],
+                           f"instance {inst} of {d['name']} (initialized in tick {d['init_tick']}) was alive when a live "
+                           f"edit was accepted; it never executed again and was never finalized")
+                else:
+                    self.v("C11", "C11.never_finalized" + w.ctx(), d["name"],
+                           f"instance {inst} of {d['name']} initialized in tick {d['init_tick']} was never finalized")
+        left = sorted(set(w.uod.command_instances) - orphan_names)
+        if left:
+            self.v("C11", "C11.instance_left_after_stop" + w.ctx(), left[0],
+                   f"after the final Stop uod still holds instances {left}")
 
 
 # ---------------------------------------------------------------------------------------------- C10
@@ -110,6 +129,12 @@ class C10StopRestart(Oracle):
         self.prev_rid = w.tag("Run Id")
         self.ev_pos = len(w.events)
 
+    edited_in_run = False
+
+    def after_edit(self, kind, expect, accepted, old, new):
+        if accepted and self.w.state not in ("Stopped", "Restarting"):
+            self.edited_in_run = True
+
     def on_stop_event(self):
         # what EngineRunner does in its on_stop handler: build the run-stopped message now
         w = self.w
@@ -120,21 +145,35 @@ class C10StopRestart(Oracle):
         except Exception as ex:
             self.v("C10", "C10.run_stopped_message_raised", type(ex).__name__, repr(ex))
             return
+        # UOD commands that really started in this run: probe instances that executed since the run started
+        run_start = max([e[0] for e in w.events if e[1] == "start"] or [0])
+        executed: dict[str, set[int]] = {}
+        for ev in w.plog.events:
+            if ev[0] >= run_start and ev[1] == "exec":
+                executed.setdefault(ev[2], set()).add(ev[3])
+        lines_by: dict[str, list] = {}
         for ln in msg.runlog.lines:
             base = ln.command_name.split(":")[0].strip()
             if base in model.UOD:
-                concluded = ln.end is not None or ln.cancelled or ln.failed
-                if not concluded:
-                    self.v("C10", "C10.uod_command_open_in_final_runlog", base,
-                           f"run-stopped run log shows {ln.command_name!r} neither completed, failed nor cancelled")
+                lines_by.setdefault(base, []).append(ln)
+        for base, insts in executed.items():
+            lns = lines_by.get(base, [])
+            concluded = [ln for ln in lns if ln.end is not None or ln.cancelled or ln.failed]
+            if len(concluded) < len(insts):
+                self.v("C10", "C10.uod_command_open_in_final_runlog" + w.ctx(), base,
+                       f"{len(insts)} instance(s) of {base} executed in the run but the run-stopped run log shows only "
+                       f"{len(concluded)} of its {len(lns)} {base} item(s) as completed, failed or cancelled")
         self.res.probe("run_stopped_msg_checked")
 
     def after_tick(self, w, inc):
         evs = w.events[self.ev_pos:]
         if any(e[1] == "stop" for e in evs):
             if w.uod.command_instances:
-                self.v("C10", "C10.command_instance_after_stop", sorted(w.uod.command_instances)[0],
+                kind = "C10.command_orphaned_by_live_edit" if self.edited_in_run else \
+                    "C10.command_instance_after_stop" + w.ctx()
+                self.v("C10", kind, sorted(w.uod.command_instances)[0],
                        f"Stop/Restart completed in tick {w.tick_no} but uod holds {sorted(w.uod.command_instances)}")
+            self.edited_in_run = False
             sim = [t.name for t in w.engine._iter_all_tags() if t.simulated]
             if sim:
                 self.v("C10", "C10.simulation_not_cleared", sim[0], f"tags still simulated after stop: {sim}")
@@ -177,7 +216,7 @@ class C05Blocks(Oracle):
             elif e[1] == "block_start" and e[2] != "root":
                 name = e[2]
                 node = self.by_name.get(name)
-                if node is not None:
+                if node is not None and "edit" not in w.ctx_flags:
                     anc = {a.arg for a in node.ancestors() if a.kind == "Block"}
                     bad = [b for b in self.stack if b not in anc]
                     if bad:
@@ -195,9 +234,11 @@ class C05Blocks(Oracle):
                         self.stack.remove(name)
                 else:
                     self.stack.pop()
+        if "edit" in w.ctx_flags:
+            return      # a live edit re-runs instructions on this tree (recorded under C01): block events repeat
         tagv = w.tag("Block")
         want = self.stack[-1] if self.stack else None
-        if (tagv or None) != want and w.state not in ("Stopped", "Restarting"):
+        if (tagv or None) != (want or None) and w.state not in ("Stopped", "Restarting"):
             self.v("C05", "C05.block_tag_mismatch", "Block",
                    f"Block tag = {tagv!r}, active chain {self.stack}")
         self.res.state("blk", len(self.stack))
@@ -228,7 +269,10 @@ class C13Errors(Oracle):
             elif w.state == "Paused" and w.tag("Method Status") != "Error":
                 self.v("C13", "C13.error_status_not_set", errs[0][2],
                        f"method error {errs[0][2]} paused the run but Method Status = {w.tag('Method Status')!r}")
-            if errs[0][2] == "NodeInterpretationError" and not self.hw_faulty:
+            external = any(r[1] in ("inject", "cancel", "force") or (r[1] == "control" and r[2] not in (
+                "Start", "Stop", "Pause", "Unpause", "Hold", "Unhold", "Restart")) for r in w.requests)
+            if errs[0][2] == "NodeInterpretationError" and not self.hw_faulty and not external and \
+                    "edit" not in w.ctx_flags and w.state == "Paused" and w.tag("Method Status") == "Error":
                 failed = set(w.method_state().failed_line_ids)
                 injected = set(w.method_state().injected_line_ids)
                 if not (failed - self.prev_failed) and not failed:
@@ -362,7 +406,7 @@ class C03Thresholds(Oracle):
         self.disturbed_ticks: set[int] = set()
 
     def before_tick(self, w, inc):
-        self.before[w.tick_no + 1] = {"BT": w.tag("Block Time"), "ST": w.tag("Scope Time"), "blk": w.tag("Block"),
+        self.before[w.tick_no] = {"BT": w.tag("Block Time"), "ST": w.tag("Scope Time"), "blk": w.tag("Block"),
                                      "base": w.tag("Base"), "state": w.state,
                                      "AV": w.engine.tags["Accumulated Volume"].get_value(),
                                      "BV": w.engine.tags["Block Volume"].get_value(),
@@ -487,8 +531,9 @@ class C04Interrupts(Oracle):
         if not ok or item is None:
             return
         name = item.name
-        for n in self.watches:
-            if name.strip() == f"{n.kind}: {n.arg}".strip():
+        same = [n for n in self.watches if name.strip() == f"{n.kind}: {n.arg}".strip()]
+        for n in (same if len(same) == 1 else []):
+            if True:
                 if what == "force":
                     self.forced.add(n.id)
                 else:
@@ -535,7 +580,7 @@ class C04Interrupts(Oracle):
                 ok = any(t in trues for t in (a, a - 1, a - 2)) or n.id in self.forced
                 if c[0] in ("Run Time", "Block Time"):
                     ok = ok or any(t in trues for t in (a + 1,))   # the clock is read before this tick's update
-                if not ok:
+                if not ok and not any(r[1] == "force" for r in w.requests):
                     self.v("C04", "C04.body_ran_without_condition", n.kind,
                            f"{n.kind} {n.arg!r} activated in tick {a}; the harness saw the condition true only in ticks "
                            f"{trues[:6]} (forced={n.id in self.forced})")
@@ -700,7 +745,7 @@ class C14Inject(Oracle):
         self.tick_state: dict[int, str] = {}
 
     def before_tick(self, w, inc):
-        self.tick_state[w.tick_no + 1] = w.state
+        self.tick_state[w.tick_no] = w.state
 
     def after_request(self, kind, msg, accepted, reply):
         if kind == "inject":
@@ -769,6 +814,7 @@ class C12CancelForce(Oracle):
             return
         if ok:
             self.pending.append({"what": what, "base": base, "name": item.name, "tick": w.tick_no, "id": target_id,
+                                 "state_at": w.state,
                                  "n_effects": len(w.effects), "cmd_events": len(w.plog.events)})
             self.res.probe(f"{what}_{base}")
 
@@ -781,7 +827,9 @@ class C12CancelForce(Oracle):
                     r, h, pa = w.control()
                     flag = pa if p["base"] == "Pause" else h
                     if flag and not w.engine.has_error_state():
-                        self.v("C12", "C12.cancelled_timed_command_still_active", p["base"],
+                        kind = "C12.cancelled_timed_command_still_active" if p["state_at"] == bad else \
+                            "C12.cancel_before_execution_ineffective"
+                        self.v("C12", kind, p["base"],
                                f"{p['name']!r} cancelled in tick {p['tick']} but the run is still {bad} two ticks later")
                     self.pending.remove(p)
                 elif p["base"] in model.UOD and age >= 1:
